@@ -14,10 +14,18 @@ func vrtName(name string, max int) []byte {
 	return b
 }
 
+// vrtSubscribers queries the store the way package service does: with result
+// slices that still hold the entries of an earlier query.
+var vrtStale = new(int)
+
 func vrtSubscribers(mt *MemTopics, topic []byte, p byte) ([]interface{}, []byte, error) {
-	var subs []interface{}
-	var qoss []byte
+	subs := []interface{}{vrtStale, vrtStale, vrtStale}
+	qoss := []byte{2, 1, 0}
 	err := mt.Subscribers(topic, p, &subs, &qoss)
+	for _, s := range subs {
+		vrtAssert("C06.no_stale_results", s != interface{}(vrtStale))
+	}
+	vrtAssert("C06.parallel_result_lists", len(subs) == len(qoss))
 	return subs, qoss, err
 }
 
@@ -316,4 +324,38 @@ func H06c_three() {
 	}
 	vrtObserve("three", len(subs))
 	vrtReach("C06.three")
+}
+
+// H06c_rejected: a Subscribe that is refused (filter invalid at its second,
+// third or fourth level, its valid prefix running through existing nodes)
+// changes nothing: the subscriptions of others below that prefix stay, and can
+// still be removed afterwards.
+func H06c_rejected() {
+	MaxQosAllowed = 2
+	mt := NewMemProvider()
+	s1, s2, s3 := new(int), new(int), new(int)
+	q1, q2 := vrtByte("q1"), vrtByte("q2")
+	vrtAssume(vrtAnd(q1 <= 2, q2 <= 2))
+	_, e1 := mt.Subscribe([]byte("a/b"), q1, s1)
+	_, e2 := mt.Subscribe([]byte("a/c/d"), q2, s2)
+	vrtAssert("C06.history_subscribe_validates", e1 == nil && e2 == nil)
+	bad := [][]byte{[]byte("a/b#"), []byte("a/+x"), []byte("a/#/c"), []byte("a/c/d#"), []byte("a/c/#/e"), []byte("a/c/d/e+"), []byte("a/b/#/f")}
+	B := bad[vrtChoice("bad", len(bad))]
+	vrtAssert("C06.harness_filter_is_invalid", !specFilterValid(B))
+	_, e3 := mt.Subscribe(B, 1, s3)
+	vrtAssert("C06.history_subscribe_validates", e3 != nil)
+	subs, qoss, err := vrtSubscribers(mt, []byte("a/b"), 2)
+	vrtAssert("C06.rejected_subscribe_changes_nothing", err == nil && len(subs) == 1)
+	if len(subs) == 1 {
+		vrtAssert("C06.rejected_subscribe_changes_nothing", vrtAnd(subs[0] == interface{}(s1), qoss[0] == q1))
+	}
+	subs, qoss, err = vrtSubscribers(mt, []byte("a/c/d"), 2)
+	vrtAssert("C06.rejected_subscribe_changes_nothing", err == nil && len(subs) == 1)
+	if len(subs) == 1 {
+		vrtAssert("C06.rejected_subscribe_changes_nothing", vrtAnd(subs[0] == interface{}(s2), qoss[0] == q2))
+	}
+	vrtAssert("C06.unsubscribe_after_rejected", mt.Unsubscribe([]byte("a/b"), s1) == nil && mt.Unsubscribe([]byte("a/c/d"), s2) == nil)
+	subs, _, _ = vrtSubscribers(mt, []byte("a/c/d"), 2)
+	vrtAssert("C06.history_count", len(subs) == 0)
+	vrtReach("C06.rejected")
 }
